@@ -163,6 +163,10 @@ def bracket_lexer(stream):
                 whitespacebuf = StringIO()
             tokenbuf.write(character)
         character = stream.read(1)
+    if len(tokenbuf.getvalue()) > 0:
+        yield tokenbuf.getvalue(), "TOKEN"
+    if len(whitespacebuf.getvalue()) > 0:
+        yield whitespacebuf.getvalue(), "WS"
 
 
 def brackets(in_file, in_encoding, **params):
@@ -335,6 +339,8 @@ def brackets(in_file, in_encoding, **params):
                     raise ValueError("unknown state")
             else:
                 raise ValueError("unknown lexer token class")
+        if level > 0:
+            raise ValueError("unexpected end of input inside a bracket group")
 
 
 def discobrackets(in_file, in_encoding, **params):
